@@ -250,7 +250,17 @@ def run(ck):
     # in strict mode skipGarbageLines must have no lookahead-dependent exit at all, otherwise the `relaxed false` alternative below is not available
     fl_strict = ck.flow(sg, assume=[(relaxed_m, False)], track_atoms={"lookahead": longer})
     strict_short = [s for s in fl_strict.find(ev_exit(("ret", "fall"))) if s.tracked("lookahead") is False]
-    fl2 = ck.flow(dp, track_atoms={"longer": longer, "cr": at(0, 13), "relaxed": relaxed_m, "len1": len1})
+    sg_call = ev_call(sg.name)
+
+    def forget_buffer_tests(ev, env, fs):
+        # skipGarbageLines() consumes from buf_: what was tested about buf_ before the call says nothing about the buffer it leaves behind
+        if sg_call(ev):
+            for k in ("@longer", "@cr", "@len1"):
+                env.pop(k, None)
+            for f in [f for f in fs if f[0] == "A" and "SBuf::isEmpty" in str(f[1])]:
+                fs.discard(f)
+    ck.sites(ck.flow(dp), sg_call, "skipGarbageLines()", 1)
+    fl2 = ck.flow(dp, track_atoms={"longer": longer, "cr": at(0, 13), "relaxed": relaxed_m, "len1": len1}, on_event=forget_buffer_tests)
     for s in ck.sites(fl2, stage_write(st, "HTTP_PARSE_FIRST"), "parsingStage_=FIRST", 1):
         not_lone_cr = (s.tracked("longer") is True or s.tracked("cr") is False or
                        (s.tracked("relaxed") is False and not strict_short) or
